@@ -38,7 +38,7 @@ func c03Construct(c *Ctx) {
 	allowedLit := map[string]bool{"NewChunk": true, "NewChunkWithID": true, "NewChunkFromStorage": true}
 	allowedStore := map[string]bool{"NewChunk": true, "NewChunkWithID": true, "NewChunkFromStorage": true, "Chunk.ID": true, "Chunk.Data": true}
 	lits, stores := 0, 0
-	for _, fn := range c.Funcs {
+	for _, fn := range c.subjects() {
 		instrs(fn, func(_ *ssa.BasicBlock, _ int, ins ssa.Instruction) {
 			switch x := ins.(type) {
 			case *ssa.Alloc:
@@ -105,7 +105,7 @@ func c03CtorVerifies(c *Ctx) {
 				return nil
 			},
 			Branch: func(st *State, iff *ssa.If, taken bool) {
-				if skipParam != nil && stripNot(iff.Cond) == ssa.Value(skipParam) {
+				if skipParam != nil && st.ArgOf(stripNot(iff.Cond)) == ssa.Value(skipParam) {
 					_, truth, _ := cmpOf(iff.Cond)
 					if taken == truth {
 						st.Flags["skip"] = 1
@@ -115,8 +115,8 @@ func c03CtorVerifies(c *Ctx) {
 				isSum := func(v ssa.Value) bool {
 					return hasOrigin(v, func(o string) bool { return o == "call:(*desync.Chunk).ID#0" })
 				}
-				isID := func(v ssa.Value) bool { return isParam(v, idParam) }
-				if eqOnTrue, ok := equalEdge(iff, isSum, isID); ok && iff.Parent() == fn {
+				isID := func(v ssa.Value) bool { return isParam(st.ArgOf(v), idParam) }
+				if eqOnTrue, ok := equalEdge(iff, isSum, isID); ok && (iff.Parent() == fn || isNewHelper(iff.Parent())) {
 					if taken == eqOnTrue {
 						st.Flags["equal"] = 1
 					}
@@ -374,7 +374,7 @@ var verifyOptionExceptions = map[string]string{
 
 func c03VerifyOption(c *Ctx) {
 	n := 0
-	for _, fn := range c.Funcs {
+	for _, fn := range c.subjects() {
 		instrs(fn, func(_ *ssa.BasicBlock, _ int, ins ssa.Instruction) {
 			st, ok := ins.(*ssa.Store)
 			if !ok {
